@@ -46,7 +46,7 @@ class BVUnit:
         return re.sub(r"[^A-Za-z0-9]+", "_", self.label).strip("_")
 
 
-def witness_wrapper(em, f, contract, harness_pre=""):
+def witness_wrapper(em, f, contract, harness_pre="", capture=True):
     """Contract goes on a wrapper that first records the inputs in witness globals (so that a
     counterexample trace names them) and then calls the real function."""
     sig = em.signature(f)
@@ -58,6 +58,8 @@ def witness_wrapper(em, f, contract, harness_pre=""):
     for p in plist:
         nm = re.search(r"([A-Za-z_]\w*)\s*(?:\[\d+\])*$", p).group(1)
         names.append(nm)
+        if not capture:
+            continue                     # arrays that may be empty: reading their first element in the wrapper would itself be out of bounds
         if "*" in p and "jpv_" not in p.split("*")[0]:
             base = p.split("*")[0].replace("const", "").strip()
             if base in ("void", "uint8_t", "unsigned char", "char"):
@@ -139,7 +141,7 @@ def _build_bv(tu, unit, workdir, contract_override=None):
         bodies += [cf_.qname for cf_ in new]
         auto += [cf_.qname for cf_ in new]
     unit.auto_inlined = auto
-    wname, wtext = witness_wrapper(em, f, tgt_contract, getattr(unit, "harness_pre", ""))
+    wname, wtext = witness_wrapper(em, f, tgt_contract, getattr(unit, "harness_pre", ""), capture=not getattr(unit, "no_witness", False))
     src += "\n/* ---- contract carrier + harness (generated) ---- */\n" + wtext
     cfile = os.path.join(workdir, unit.name() + ".c")
     with open(cfile, "w") as fh:
